@@ -681,6 +681,44 @@ def c18_obs_consumer(rng):
             "oracle_only": "application-iterates-observation", "second_context": True}
 
 
+def c18_blockwise(rng):
+    """shutdown in the middle of a block-wise transfer through the default API (BlockwiseRequest): a Block2 download,
+    a Block1 upload, a block-wise observation; the peer answers block by block.  Oracle-only."""
+    clock = Clock(rng)
+    kind = rng.choice(["download", "upload", "observe"])
+    nblocks = rng.randrange(2, 5)
+    blk = lambda num, more: "%02x" % ((num << 4) | (8 if more else 0))        # szx 0: 16-byte blocks
+    rules = []
+    events = []
+    if kind == "upload":
+        events.append(submit(1000, 0, 0, rel=True, code=POST))
+        bw = {"0": {"szx": 0, "upload": 16 * (nblocks - 1) + rng.choice([1, 9, 16])}}
+        for k in range(nblocks):
+            last = k == nblocks - 1
+            rules.append({"remote": 0, "mtype": "CON", "nth": k + 1, "after": rng.choice([300, M // 2]), "do": "piggy",
+                          "code": 68 if last else 95, "opts": [[27, blk(k, not last)]], "payload_hex": ""})
+    else:
+        events.append(submit(1000, 0, 0, rel=True, observing=(kind == "observe")))
+        bw = {"0": {"szx": 0}}
+        for k in range(nblocks):
+            last = k == nblocks - 1
+            rules.append({"remote": 0, "mtype": "CON", "nth": k + 1, "after": rng.choice([300, M // 2]), "do": "piggy",
+                          "code": 69, "obs": 1 if (kind == "observe" and k == 0) else None,
+                          "opts": [[23, blk(k, not last)]], "payload_hex": ("%02x" % (65 + k)) * (16 if not last else 5)})
+    if rng.random() < 0.3:
+        rules = rules[:rng.randrange(1, len(rules) + 1)]        # the peer falls silent in the middle
+    if rng.random() < 0.5:
+        events.append(submit(clock.at(1500), 1, 1, rel=rng.random() < 0.5))      # a neighbour
+    ts = clock.at(1000 + rng.choice([1, 200, 350, M // 2 + 50, M, 2 * M, rng.randrange(1, 4 * M)]))
+    events.append(["X", ts])
+    if rng.random() < 0.5:
+        events.append(submit(clock.at(ts + rng.randrange(1, M)), 50, 0, rel=True))
+    events.sort(key=lambda e: e[1])
+    events.append(far_end(events))
+    return {"events": events, "rules": rules, "draws": [], "tag": "blockwise:" + kind, "blockwise": bw,
+            "oracle_only": "blockwise-transfer", "second_context": True}
+
+
 def c02_boundary():
     """token counter at byte boundaries and at the 64-bit wrap; a long run in which the counter passes
     0x100 while the request with token 01 is still outstanding"""
